@@ -78,16 +78,16 @@ var verifNativeHashHook func(k *LocationRecordKey, hashInitialization uint64) (u
 // chosen by the harness (symbolic); blocks appended by PushBack are empty.
 // ---------------------------------------------------------------------------
 type verifBlockList struct {
-	blockSize int64
-	space     []int64 // free bytes per block currently in the list
-	released  int     // blocks popped so far
-	pops      int
-	pushes    int
-	failPush  bool // when set (symbolic), the next PushBack fails
-	puts      []verifListPut
-	getCalls  int
-	lastCB    func(bool) // integrity callback of the most recent Get
-	finalizeErr bool     // Put finalizer reports failure
+	blockSize   int64
+	space       []int64 // free bytes per block currently in the list
+	released    int     // blocks popped so far
+	pops        int
+	pushes      int
+	failPush    bool // when set (symbolic), the next PushBack fails
+	puts        []verifListPut
+	getCalls    int
+	lastCB      func(bool) // integrity callback of the most recent Get
+	finalizeErr bool       // Put finalizer reports failure
 }
 
 type verifListPut struct {
@@ -170,9 +170,9 @@ func (l *verifErrorLogger) Log(err error) { l.n++ }
 
 // verifOCN is an OldCurrentNewLocationBlobMap in an arbitrary valid state over a stub block list.
 type verifOCN struct {
-	lbm    *OldCurrentNewLocationBlobMap
-	bl     *verifBlockList
-	logger *verifErrorLogger
+	lbm     *OldCurrentNewLocationBlobMap
+	bl      *verifBlockList
+	logger  *verifErrorLogger
 	O, C, N int
 	mutable bool
 }
@@ -214,16 +214,16 @@ func verifNewOCNProfile(maxO int, full bool) *verifOCN {
 		policy = NewImmutableBlockListGrowthPolicy(x.C, x.N)
 	}
 	lbm := &OldCurrentNewLocationBlobMap{
-		blockList:             x.bl,
-		blockListGrowthPolicy: policy,
-		errorLogger:           x.logger,
-		blockSizeBytes:        blockSize,
-		desiredOldBlocksCount: x.O,
-		desiredNewBlocksCount: x.N,
-		oldBlocks:             make([]oldBlockState, old),
-		currentBlocks:         cur,
-		newBlocks:             nw,
-		totalBlocksReleased:   uint64(x.bl.released),
+		blockList:                        x.bl,
+		blockListGrowthPolicy:            policy,
+		errorLogger:                      x.logger,
+		blockSizeBytes:                   blockSize,
+		desiredOldBlocksCount:            x.O,
+		desiredNewBlocksCount:            x.N,
+		oldBlocks:                        make([]oldBlockState, old),
+		currentBlocks:                    cur,
+		newBlocks:                        nw,
+		totalBlocksReleased:              uint64(x.bl.released),
 		lastRemovedOldBlockInsertionTime: verifGauge{},
 	}
 	lbm.totalBlocksToBeReleased.Store(uint64(x.bl.released))
